@@ -114,6 +114,14 @@ Definition hget (h : hist) (dist : N) : N :=
 Fixpoint hist_of_list (l : list N) (h : hist) : hist :=
   match l with [] => h | b :: r => hist_of_list r (hput h b) end.
 
+(** ---------- LZMA state machine (lzma_common.h macros) ---------- *)
+Definition st_literal (st : N) : N := if st <? 4 then 0 else if st <? 10 then st - 3 else st - 6.
+Definition st_match (st : N) : N := if st <? 7 then 7 else 10.
+Definition st_longrep (st : N) : N := if st <? 7 then 8 else 11.
+Definition st_shortrep (st : N) : N := if st <? 7 then 9 else 11.
+Definition is_lit_state (st : N) : bool := st <? 7.
+Definition dist_state (len : N) : N := if len <? 6 then len - 2 else 3.
+
 (** ---------- decoder state ---------- *)
 Record props := { lc : N; lp : N; pb : N }.
 Definition props_ok (p : props) : bool := (lc p + lp p <=? 4) && (pb p <=? 4).
@@ -226,9 +234,9 @@ Definition symbol (z : lz) : lz :=
     let lit_state := (pos mod 2 ^ lp pr) * 2 ^ lc pr + prev / 2 ^ (8 - lc pr) in
     let base := P_LITERAL lit_state in
     let '(s, r, ps) :=
-      if st <? 7 then bittree 8 r ps base 1
+      if is_lit_state st then bittree 8 r ps base 1
       else lit_matched 8 r ps base (hget (zhist z) (rep0 z)) 1 true in
-    let st' := if st <? 4 then 0 else if st <? 10 then st - 3 else st - 6 in
+    let st' := st_literal st in
     if rfail r then with_status (set_reps z r ps st (rep0 z) (rep1 z) (rep2 z) (rep3 z)) Truncated
     else if room z then emit z (s - 256) r ps st'
     else with_status (set_reps z r ps st' (rep0 z) (rep1 z) (rep2 z) (rep3 z)) DataError
@@ -237,8 +245,8 @@ Definition symbol (z : lz) : lz :=
     if negb isrep then
       (* match with new distance *)
       let '(len, r, ps) := len_decode r ps P_MATCH_LEN pos_state in
-      let st' := if st <? 7 then 7 else 10 in
-      let ds := if len <? 6 then len - 2 else 3 in
+      let st' := st_match st in
+      let ds := dist_state len in
       let '(slot, r, ps) := bittree 6 r ps (P_DIST_SLOT ds) 1 in
       let slot := slot - 64 in
       let '(d, r, ps) :=
@@ -270,14 +278,14 @@ Definition symbol (z : lz) : lz :=
         let '(lg, r, ps) := rc_bit r ps (P_IS_REP0_LONG st pos_state) in
         if negb lg then
           (* short rep *)
-          let st' := if st <? 7 then 9 else 11 in
+          let st' := st_shortrep st in
           if rfail r then with_status (set_reps z r ps st (rep0 z) (rep1 z) (rep2 z) (rep3 z)) Truncated
           else
           let z := set_reps z r ps st' (rep0 z) (rep1 z) (rep2 z) (rep3 z) in
           copy_match 1 z
         else
           let '(len, r, ps) := len_decode r ps P_REP_LEN pos_state in
-          let st' := if st <? 7 then 8 else 11 in
+          let st' := st_longrep st in
           if rfail r then with_status (set_reps z r ps st (rep0 z) (rep1 z) (rep2 z) (rep3 z)) Truncated
           else copy_match (N.to_nat len) (set_reps z r ps st' (rep0 z) (rep1 z) (rep2 z) (rep3 z))
       else
@@ -289,7 +297,7 @@ Definition symbol (z : lz) : lz :=
             if negb r2 then (rep2 z, rep0 z, rep1 z, rep3 z, r, ps)
             else (rep3 z, rep0 z, rep1 z, rep2 z, r, ps) in
         let '(len, r, ps) := len_decode r ps P_REP_LEN pos_state in
-        let st' := if st <? 7 then 8 else 11 in
+        let st' := st_longrep st in
         if rfail r then with_status (set_reps z r ps st (rep0 z) (rep1 z) (rep2 z) (rep3 z)) Truncated
         else
         let z := set_reps z r ps st' a b c d in
